@@ -5,7 +5,7 @@ fn stub_bits<const N: usize>(_x: &bnum::BUint<N>) -> u32 {
     unsafe { VERIF_BITS }
 }
 
-// @harness clsgrp_a_params unit=classgroup::a_params props=C20
+// @harness clsgrp_a_params unit=classgroup::a_params props=C20,C03
 #[kani::proof]
 fn clsgrp_a_params_ok() {
     let sz: u32 = kani::any();
@@ -16,7 +16,7 @@ fn clsgrp_a_params_ok() {
     assert!(sz <= 32 || facs >= 2);
 }
 
-// @harness clsgrp_interval_size unit=classgroup::interval_size props=C20
+// @harness clsgrp_interval_size unit=classgroup::interval_size props=C20,C03
 #[kani::proof]
 fn clsgrp_interval_size_ok() {
     let sz: u32 = kani::any();
@@ -25,7 +25,7 @@ fn clsgrp_interval_size_ok() {
     assert!(s > 0 && s % 32768 == 0 && s <= 16 * 32768);
 }
 
-// @harness clsgrp_large_prime_factor unit=classgroup::large_prime_factor props=C20
+// @harness clsgrp_large_prime_factor unit=classgroup::large_prime_factor props=C20,C03
 #[kani::proof]
 fn clsgrp_large_prime_factor_ok() {
     let sz: u32 = kani::any();
@@ -34,7 +34,7 @@ fn clsgrp_large_prime_factor_ok() {
     assert!(f >= 2 && f <= 1024);
 }
 
-// @harness clsgrp_double_large_factor unit=classgroup::double_large_factor props=C20
+// @harness clsgrp_double_large_factor unit=classgroup::double_large_factor props=C20,C03
 #[kani::proof]
 #[kani::stub(bnum::BUint::bits, stub_bits)]
 fn clsgrp_double_large_factor_ok() {
